@@ -414,7 +414,8 @@ def make_case(rng, nr, quick, **kw):
         ndarray = True
     return {'labels': tab['labels'], 'cols': [c.tolist() for c in tab['cols']], 'kinds': tab['kinds'],
             'descr': tab['descr'], 'config': gen_config(rng, tab, quick), 'seed': gen_seed(rng), 'ndarray': ndarray,
-            'dtypes': tab['dtypes'], 'row_order': tab['row_order']}
+            'dtypes': tab['dtypes'], 'row_order': tab['row_order'],
+            'row_index': 'default' if (ndarray or rng.random() < 0.5) else rng.choice(ROW_INDEX_FORMS[1:])}
 
 
 def col_dtypes(case):
@@ -427,7 +428,8 @@ def case_input(case, **extra):
          'cols_hex': [[str(int(v)) for v in c] if dt == 'int64' else [vc.f2h(v) for v in c]
                       for c, dt in zip(case['cols'], col_dtypes(case))], 'kinds': case['kinds'],
          'config': case['config'], 'seed': case['seed'], 'ndarray': bool(case.get('ndarray')),
-         'dtypes': col_dtypes(case), 'row_order': case.get('row_order', 'as-drawn')}
+         'dtypes': col_dtypes(case), 'row_order': case.get('row_order', 'as-drawn'),
+         'row_index': case.get('row_index', 'default')}
     d.update(extra)
     return d
 
@@ -459,7 +461,8 @@ def case_from_input(inp):
             'cols': [[int(h) for h in c] if dt == 'int64' else [vc.h2f(h) for h in c]
                      for c, dt in zip(inp['cols_hex'], dts)], 'kinds': inp.get('kinds', []),
             'descr': [], 'config': inp['config'], 'seed': inp['seed'], 'ndarray': bool(inp.get('ndarray')),
-            'dtypes': list(dts), 'row_order': inp.get('row_order', 'as-drawn')}
+            'dtypes': list(dts), 'row_order': inp.get('row_order', 'as-drawn'),
+            'row_index': inp.get('row_index', 'default')}
 
 
 # --------------------------------------------------------------------------------------------- the real code
@@ -482,13 +485,38 @@ class Recorder:
         np.random.multivariate_normal = self.orig
 
 
-def fit_model(case):
+ROW_INDEX_FORMS = ('default', 'shuffled', 'offset-n', 'offset-1', 'strings', 'datetime', 'multi', 'duplicated')
+
+
+def make_row_index(form, n):
+    """row index of the training frame (the VALUES and their order are the same under every form)."""
+    if form == 'shuffled':
+        return pd.Index(np.random.RandomState(n).permutation(n))
+    if form == 'offset-n':
+        return pd.RangeIndex(n, 2 * n)
+    if form == 'offset-1':
+        return pd.RangeIndex(1, n + 1)
+    if form == 'strings':
+        return pd.Index(['row%d' % i for i in range(n)])
+    if form == 'datetime':
+        return pd.date_range('2021-03-01', periods=n, freq='h')
+    if form == 'multi':
+        return pd.MultiIndex.from_arrays([np.arange(n) // 7, np.arange(n) % 7])
+    if form == 'duplicated':
+        return pd.Index(np.arange(n) // 2)
+    return pd.RangeIndex(n)
+
+
+def fit_model(case, row_index=None):
     """fit the real model; -> (model, X).  An unseeded model draws from the global stream, which is saved, seeded
     and restored around every use (the harness never consumes global randomness)."""
     from copulas.multivariate import GaussianMultivariate
     X = pd.DataFrame({lab: np.array(col, dtype=(np.int64 if dt == 'int64' else float))
                       for lab, col, dt in zip(case['labels'], case['cols'], col_dtypes(case))},
                      columns=list(case['labels']))
+    form_ = row_index or case.get('row_index') or 'default'
+    if form_ != 'default' and not case.get('ndarray'):
+        X.index = make_row_index(form_, len(X))
     cfg = build_config(case['config'])
     kind, s = case['seed']
     rs = None if kind == 'none' else (s if kind == 'int' else np.random.RandomState(s))
@@ -722,7 +750,7 @@ def ulp_nbhd(x, k=4):
     return x - h, x + h
 
 
-def ref_inverse(cdf, u, lo, hi, iters=64):
+def ref_inverse(cdf, u, lo, hi, iters=44):
     """independent inversion of a fitted cdf: plain float64 bisection on cdf(x) - u over [lo, hi]."""
     lo = np.full(u.shape, lo, dtype=float)
     hi = np.full(u.shape, hi, dtype=float)
@@ -755,7 +783,7 @@ def independent_kde_cdf(uni, opts):
     return lambda x: ndtr((np.asarray(x, dtype=float)[:, None] - data) / h).dot(w)
 
 
-def kde_inversion_problems(case, unis, out, draws, max_rows=600, probs_marginal=None):
+def kde_inversion_problems(case, unis, out, draws, max_rows=300, probs_marginal=None):
     """deterministic oracle for the columns modelled by GaussianKDE (whose percent_point is Copulas' OWN root
     finder): the sampled cell must be the quantile of the fitted KDE at u = Phi(normal draw), as computed by an
     independent bisection of `univariate.cdf`, in the column's own scale:
@@ -966,6 +994,7 @@ def tie_case(ctx, lean, case, ns, note):
     ctx.count('ncols:%d' % d)
     ctx.count('input:' + ('ndarray' if case.get('ndarray') else 'DataFrame'))
     ctx.count('row-order:' + case.get('row_order', 'as-drawn'))
+    ctx.count('row-index:' + case.get('row_index', 'default'))
     for j_ in range(d):
         for k_ in leaf_opts(case, j_):
             ctx.count('inst-option:' + k_)
@@ -1220,6 +1249,22 @@ def search(ctx, deep):
     for t in range((4 if quick else 10) if deep else 2):
         stats['kde_scale_tables'] = stats.get('kde_scale_tables', 0) + 1
         oracle_case(ctx, kde_scale_case(rng4, nr4), stats, schema_ns=[rng4.randint(100, 400)], big=deep, light=True)
+    # input FORM (row index), object STATE (from_dict / save-load / clone / refit) and HISTORY (fit A, sample, fit B)
+    rng8 = ctx.rng('search', 'equivalence')
+    nr8 = ctx.nprng('search', 'equivalence')
+    for t in range((6 if quick else 16) if deep else 2):
+        case = equivalence_case(rng8, nr8, allow_default=deep)
+        if not deep and t == 0 and isinstance(case['labels'][0], str):
+            case['labels'] = list(range(7, 7 + len(case['labels'])))      # every quick run has a non-string-label table
+            if case['config'][0] == 'dict':
+                case['config'] = ['class', 'GaussianUnivariate']
+        k_ = len(case['labels'])
+        same = equivalence_case(rng8, nr8, k=k_, allow_default=False)
+        diff_ = equivalence_case(rng8, nr8, k=k_ + 1, allow_default=False)
+        for o in (same, diff_):
+            o['ndarray'] = False
+        forms = None if deep else ['offset-n'] + rng8.sample(list(ROW_INDEX_FORMS[1:3]) + list(ROW_INDEX_FORMS[4:]), 2)
+        equivalence_oracle(ctx, case, same, diff_ if deep else None, stats, forms=forms)
     # selector instances with selection_sample_size on ROW-ORDERED tables (and shuffled controls in deep mode)
     rng7 = ctx.rng('search', 'selection')
     nr7 = ctx.nprng('search', 'selection')
@@ -1430,6 +1475,257 @@ def selection_oracle(ctx, case, stats):
                             'best': best, 'margin': margin, 'recovery_band': band, 'row_order': case.get('row_order')},
                            'KS_full(selected family) <= min_candidates KS_full + 2 DKW(k) and <= DKW(n) + 0.1, for every '
                            'row order of the training table', cls)
+
+
+def config_or_default(spec):
+    cfg = build_config(spec)
+    if cfg is None:
+        from copulas.univariate import Univariate
+        return Univariate
+    return cfg
+
+
+def seeded_sample(model, S, n):
+    """model.set_random_state(S); model.sample(n) — with the global stream saved and restored."""
+    state = np.random.get_state()
+    try:
+        model.set_random_state(S)
+        return model.sample(n)
+    finally:
+        np.random.set_state(state)
+
+
+def label_list_equal(a, b):
+    """same labels, same TYPE (int vs str vs tuple), same order."""
+    a, b = list(a), list(b)
+    if len(a) != len(b):
+        return False
+    for x, y in zip(a, b):
+        xi, yi = isinstance(x, (int, np.integer)), isinstance(y, (int, np.integer))
+        if xi != yi or (not xi and type(x) is not type(y)) or x != y:
+            return False
+    return True
+
+
+def frames_bit_equal(a, b):
+    if not (isinstance(a, pd.DataFrame) and isinstance(b, pd.DataFrame)) or a.shape != b.shape:
+        return 'shape/type %s vs %s' % (getattr(a, 'shape', type(a)), getattr(b, 'shape', type(b)))
+    if not label_list_equal(a.columns, b.columns):
+        return 'columns %r vs %r' % (list(a.columns), list(b.columns))
+    for j in range(a.shape[1]):
+        x, y = a.iloc[:, j], b.iloc[:, j]
+        if x.dtype.kind in 'iu' or y.dtype.kind in 'iu':
+            if x.tolist() != y.tolist():
+                return 'column %r: %r vs %r' % (a.columns[j], x.tolist()[:2], y.tolist()[:2])
+        elif not bits_equal(x.to_numpy(), y.to_numpy()):
+            return 'column %r: %s' % (a.columns[j], first_diff(x.to_numpy(), y.to_numpy()))
+    return None
+
+
+_PGRID = np.linspace(0.01, 0.99, 25)
+
+
+def models_differ(ref, m):
+    """fitted state compared: labels (type, order), correlation bits, each univariate's percent_point on a grid."""
+    if not label_list_equal(ref.columns, m.columns):
+        return 'columns %r vs %r' % (list(ref.columns), list(m.columns))
+    if not label_list_equal(ref.correlation.columns, m.correlation.columns) or \
+            not label_list_equal(ref.correlation.index, m.correlation.index):
+        return 'correlation labels %r vs %r' % (list(ref.correlation.columns), list(m.correlation.columns))
+    if not bits_equal(ref.correlation.to_numpy(), m.correlation.to_numpy()):
+        return 'correlation: ' + first_diff(ref.correlation.to_numpy(), m.correlation.to_numpy())
+    for j, (u, v) in enumerate(zip(ref.univariates, m.univariates)):
+        a = np.asarray(u.percent_point(_PGRID))
+        b = np.asarray(v.percent_point(_PGRID))
+        if a.dtype.kind in 'iu' or b.dtype.kind in 'iu':
+            if a.tolist() != b.tolist():
+                return 'univariate %d: %r vs %r' % (j, a.tolist()[:2], b.tolist()[:2])
+        elif not bits_equal(a, b):
+            return 'univariate %d percent_point: %s' % (j, first_diff(a, b))
+    return None
+
+
+def has_lossy_kde_options(case):
+    """GaussianKDE(weights / bw_method) are constructor options that to_dict does not carry (serialisation is another
+    property): the bitwise comparison of a from_dict copy is skipped for them, the label / schema comparison is not."""
+    return any(('weights' in leaf_opts(case, j) or 'bw_method' in leaf_opts(case, j)) for j in range(len(case['labels'])))
+
+
+def equivalence_case(rng, nr, k=None, n=None, allow_default=True):
+    """a small table with fast families (incl. a constant column now and then), int or str or numpy-array labels."""
+    k = k or rng.choice([2, 3, 4])
+    n = n or rng.choice([40, 70, 120])
+    R, L = random_correlation(rng, nr, k)
+    Z = nr.randn(n, k) @ L.T
+    kinds = [rng.choice(['gaussian', 'gamma', 'uniform', 'kde', 'truncated']) for _ in range(k)]
+    if k > 2 and rng.random() < 0.4:
+        kinds[rng.randrange(k)] = 'const'
+    cols, descr, dtypes = [], [], []
+    for j, kd in enumerate(kinds):
+        if kd == 'const':
+            if rng.random() < 0.5:
+                cols.append([rng.choice([3, -7, 2 ** 53 + 1])] * n)
+                dtypes.append('int64')
+            else:
+                cols.append([rng.choice([2.5, -0.0, 0.1])] * n)
+                dtypes.append('float')
+            descr.append('const')
+            continue
+        q, dsc = marginal(rng, kd)
+        cols.append(np.asarray(q(Z[:, j]), dtype=float).tolist())
+        descr.append(dsc)
+        dtypes.append('float')
+    lab_form = rng.choice(['str', 'int', 'ndarray', 'int'])
+    nd = lab_form == 'ndarray' and all(t == 'float' for t in dtypes)
+    if nd:
+        labels = list(range(k))
+    elif lab_form == 'str':
+        labels = rng.sample(['a', 'b', 'c3', 'w w', '0', 'z'], k)
+    else:
+        labels = rng.sample(range(0, 30), k)
+    form = rng.choice(['class', 'str', 'inst', 'dict', 'dict'] + (['default'] if allow_default else []))
+    if form == 'default':
+        spec = ['default']
+    elif form == 'dict':
+        items = []
+        for lab, kd, col in zip(labels, kinds, cols):
+            name = KIND2CLASS[kd] if kd != 'truncated' else rng.choice(['TruncatedGaussian', 'GaussianUnivariate'])
+            f_ = rng.choice(['class', 'str', 'inst'])
+            opts = gen_inst_opts(rng, name, col) if (f_ == 'inst' and kd != 'const' and rng.random() < 0.5) else {}
+            items.append([enc_label(lab), [f_, name, opts] if opts else [f_, name]])
+        spec = ['dict', shape_dict(rng, items, rng.choice(['full-in-order', 'full-shuffled', 'subset-shuffled']))]
+    else:
+        spec = [form, rng.choice(['GaussianUnivariate', 'GammaUnivariate', 'GaussianKDE', 'UniformUnivariate'])]
+    return {'labels': labels, 'cols': cols, 'kinds': kinds, 'descr': descr, 'config': spec,
+            'seed': ['int', rng.randrange(2 ** 31)], 'ndarray': nd, 'dtypes': dtypes, 'row_order': 'as-drawn',
+            'row_index': 'default'}
+
+
+def equivalence_oracle(ctx, case, other_same, other_diff, stats, n=37, forms=None):
+    """C01 must not depend on the FORM of the input, the STATE of the object or its HISTORY.  Reference = a fresh model
+    fitted on the table under a default row index, sampled with `set_random_state(S); sample(n)`.  Bitwise equal to it:
+      * the same table under every other row index (shuffled labels, offsets, strings, DatetimeIndex, MultiIndex,
+        duplicated labels): fitted state and sample;
+      * the model restored through to_dict -> from_dict (class route and Multivariate.from_dict), through save/load,
+        a get_instance clone fitted on the table, a model fitted twice: labels (same TYPE and order) and sample;
+      * a model with a history: fit(other table) -> sample -> fit(this table) -> sample."""
+    import tempfile
+    from copulas.multivariate import GaussianMultivariate
+    from copulas.multivariate.base import Multivariate
+    from copulas.utils import get_instance
+    S = case['seed'][1]
+    stats['equivalence_cases'] = stats.get('equivalence_cases', 0) + 1
+
+    def report(cls_, entry, what, diff, **extra):
+        ctx.fail_input(entry, case_input(case, n=n, experiment='equivalence', variant=what, **extra),
+                       {'variant': what, 'difference_from_fresh_default_index_model': str(diff)[:400]},
+                       'fitted state and sample(n) under the same seed are identical to those of a fresh model fitted on '
+                       'the same values under a default row index', cls_)
+
+    def refit(model, c):
+        """model.fit(table of case c) with the global stream seeded like fit_model does."""
+        X = pd.DataFrame({lab: np.array(col, dtype=(np.int64 if dt == 'int64' else float))
+                          for lab, col, dt in zip(c['labels'], c['cols'], col_dtypes(c))}, columns=list(c['labels']))
+        state = np.random.get_state()
+        try:
+            np.random.seed(c['seed'][1] % (2 ** 32))
+            model.fit(X.to_numpy() if c.get('ndarray') else X)
+        finally:
+            np.random.set_state(state)
+
+    try:
+        ref, X = fit_model(case, row_index='default')
+        ref_out = seeded_sample(ref, S, n)
+    except Exception as e:  # noqa
+        ctx.fail_input('GaussianMultivariate.fit', case_input(case, n=n), 'raised ' + repr(e)[:300], 'fit + sample succeed',
+                       'GaussianMultivariate.fit:raises')
+        return
+    if not label_list_equal(ref_out.columns, case['labels']):
+        report('GaussianMultivariate.sample:schema-labels', 'GaussianMultivariate.sample', 'fresh',
+               'columns %r vs training %r' % (list(ref_out.columns), case['labels']))
+        return
+    # --- FORM: row index of the training frame
+    if not case.get('ndarray'):
+        for form in (forms or ROW_INDEX_FORMS[1:]):
+            stats['row_index_variants'] = stats.get('row_index_variants', 0) + 1
+            try:
+                m, _ = fit_model(case, row_index=form)
+                diff = models_differ(ref, m) or frames_bit_equal(ref_out, seeded_sample(m, S, n))
+            except Exception as e:  # noqa
+                diff = 'raised ' + repr(e)[:300]
+            if diff:
+                report('GaussianMultivariate.fit:depends-on-row-index', 'GaussianMultivariate.fit', 'row-index:' + form, diff)
+    # --- STATE: restored / cloned / re-fitted objects
+    states = {}
+    try:
+        states['from_dict-class'] = lambda: GaussianMultivariate.from_dict(ref.to_dict())
+        states['from_dict-factory'] = lambda: Multivariate.from_dict(ref.to_dict())
+
+        def pickled():
+            with tempfile.TemporaryDirectory() as dd:
+                path = dd + '/model.pkl'
+                ref.save(path)
+                return GaussianMultivariate.load(path)
+        states['save-load'] = pickled
+
+        def clone():
+            m = get_instance(ref)
+            refit(m, case)
+            return m
+        states['get_instance-clone'] = clone
+
+        def twice():
+            m = get_instance(ref)
+            refit(m, case)
+            refit(m, case)
+            return m
+        states['fitted-twice'] = twice
+    except Exception:  # noqa
+        pass
+    lossy = has_lossy_kde_options(case)
+    for name, make in states.items():
+        stats['state_variants'] = stats.get('state_variants', 0) + 1
+        try:
+            m = make()
+            out = seeded_sample(m, S, n)
+        except Exception as e:  # noqa
+            report('GaussianMultivariate.sample:restored-model-raises', 'GaussianMultivariate.sample', 'state:' + name,
+                   'raised ' + repr(e)[:300])
+            continue
+        if not (label_list_equal(m.columns, case['labels']) and label_list_equal(out.columns, case['labels'])
+                and label_list_equal(m.correlation.columns, case['labels'])):
+            report('GaussianMultivariate.sample:restored-model-labels', 'GaussianMultivariate.sample', 'state:' + name,
+                   'model.columns %r, sample columns %r, training labels %r' % (list(m.columns), list(out.columns),
+                                                                                case['labels']))
+            continue
+        if name.startswith('from_dict') and lossy:
+            continue
+        diff = frames_bit_equal(ref_out, out)
+        if diff:
+            report('GaussianMultivariate.sample:restored-model-differs', 'GaussianMultivariate.sample', 'state:' + name, diff)
+    # --- HISTORY: fit(other) -> sample -> fit(this) -> sample
+    for tag, other in (('same-width', other_same), ('other-width', other_diff)):
+        if other is None:
+            continue
+        stats['history_variants'] = stats.get('history_variants', 0) + 1
+        try:
+            m = get_instance(ref)
+            m.distribution = config_or_default(other['config'])
+            refit(m, other)
+            seeded_sample(m, S, 5)
+            m.distribution = config_or_default(case['config'])
+            refit(m, case)
+            diff = models_differ(ref, m) or frames_bit_equal(ref_out, seeded_sample(m, S, n))
+        except Exception as e:  # noqa
+            diff = 'raised ' + repr(e)[:300]
+        if diff:
+            report('GaussianMultivariate.sample:depends-on-fit-history', 'GaussianMultivariate.sample',
+                   'history:fit(other %s)->sample->fit->sample' % tag, diff,
+                   other={'labels': [enc_label(x) for x in other['labels']],
+                          'cols_hex': [[str(int(v)) for v in c] if dt == 'int64' else [vc.f2h(v) for v in c]
+                                       for c, dt in zip(other['cols'], col_dtypes(other))],
+                          'dtypes': col_dtypes(other), 'config': other['config'], 'seed': other['seed'],
+                          'ndarray': bool(other.get('ndarray')), 'kinds': other['kinds']})
 
 
 def kde_options_case(rng, nr):
@@ -1996,6 +2292,15 @@ def replay(ctx, payload):
         dependence_oracle(ctx, case_from_input(inp), stats)
     elif inp.get('experiment') == 'selection':
         selection_oracle(ctx, case_from_input(inp), stats)
+    elif inp.get('experiment') == 'equivalence':
+        other = None
+        if inp.get('other'):
+            o = dict(inp['other'])
+            o.setdefault('row_order', 'as-drawn')
+            other = case_from_input(o)
+        tag = inp.get('variant', '')
+        equivalence_oracle(ctx, case_from_input(inp), other if 'same-width' in tag else None,
+                           other if 'other-width' in tag else None, stats, n=int(inp.get('n', 37)))
     elif 'cols_hex' in inp:
         case = case_from_input(inp)
         n = int(inp.get('n', 1))
